@@ -23,7 +23,7 @@ def gen(R):
     sim = Model(legacy, variant_multi_nothing=multi_open)
     for _ in range(R.int(3, 18)):
         ctx = R.choice(CTXS[:nctx])
-        k = R.weighted([(6, "define"), (2, "delete"), (1, "rebind"), (7, "call"), (1, "reload_empty"), (1, "reload_race"), (2, "outgoing")])
+        k = R.weighted([(6, "define"), (2, "delete"), (1, "rebind"), (7, "call"), (1, "reload_empty"), (1, "reload_race"), (2, "outgoing"), (3, "script_call")])
         if k == "define":
             g += 1
             form = R.weighted([(3, "default"), (4, "one"), (2, "multi"), (2, "two_decs")])
@@ -66,6 +66,15 @@ def gen(R):
             # being started (the service-description lookup is held by the harness) the file is emptied and reloaded again
             sim.funcs[ctx] = {}
             ops.append({"op": "reload_race", "ctx": ctx, "suspend": R.choice([3, 10, 40]), "sr": R.choice([None, "optional"])})
+        elif k == "script_call" and sim.registered():
+            # script code calls a service that pyscript itself declares (service.call or DOMAIN.SERVICE(**kw)); a service
+            # that only supports responses returns its result also without return_response (the call implies it)
+            reg = sim.registered()
+            name = R.choice(sorted(reg))
+            sr = sorted(reg[name])[-1][4]
+            ctl = R.choice([{}, {"blocking": True}] + ([{"return_response": True}, {"blocking": True, "return_response": True}] if sr else []))
+            ops.append({"op": "script_call", "ctx": ctx, "form": R.choice(["service.call", "direct"]), "name": name,
+                        "kw": R.choice([{}, {"x": 1}, {"x": "s", "y": [1, 2]}]), "ctl": ctl})
         else:
             form = R.choice(["service.call", "direct"])
             kw = R.choice([{"a": 1}, {"a": "x", "b": [1]}, {}, {"entity_id": "light.z", "n": 2.5}])
@@ -156,7 +165,7 @@ async def execute(case):
         trace = []
         for i, op in enumerate(case["ops"]):
             step = {"i": i, "op": op["op"]}
-            if op["op"] in ("define", "delete", "rebind", "outgoing"):
+            if op["op"] in ("define", "delete", "rebind", "outgoing", "script_call"):
                 gctx = GlobalContextMgr.get(op["ctx"])
                 ast_ctx = AstEval(op["ctx"], gctx)
                 Function.install_ast_funcs(ast_ctx)
@@ -166,6 +175,16 @@ async def execute(case):
                     src = f"del {op['fn']}"
                 elif op["op"] == "rebind":
                     src = f"{op['fn']} = 5"
+                elif op["op"] == "script_call":
+                    kw = dict(op["kw"])
+                    kw.update(op["ctl"])
+                    args = ", ".join(f"{k}={v!r}" for k, v in kw.items())
+                    dom, name = op["name"].split(".")
+                    if op["form"] == "service.call":
+                        src = f"_out = service.call({dom!r}, {name!r}{', ' if args else ''}{args})"
+                    else:
+                        src = f"_out = {dom}.{name}({args})"
+                    gctx.global_sym_table.pop("_out", None)
                 else:
                     kw = dict(op["kw"])
                     kw.update(op["ctl"])
@@ -175,6 +194,7 @@ async def execute(case):
                     else:
                         src = f"_out = vtest.rec({args})"
                 before = len(got)
+                n0 = len(it.records)
                 try:
                     ast_ctx.parse(src)
                     await ast_ctx.eval()
@@ -182,6 +202,9 @@ async def execute(case):
                 except Exception as exc:  # noqa: BLE001
                     step["exc"] = type(exc).__name__
                 await it.settle(1)
+                if op["op"] == "script_call":
+                    step["runs"] = [list(a[1:4]) + [{k: v for k, v in a[4].items()}] for vt, a, kw in it.records[n0:] if a[0] == "svc"]
+                    step["result"] = gctx.global_sym_table.get("_out")
                 if op["op"] == "outgoing":
                     step["delivered"] = got[before:]
                     step["result"] = gctx.global_sym_table.get("_out") if op["ctl"].get("return_response") else None
@@ -276,6 +299,20 @@ def judge(case, trace, leak, variant=False):
         elif op["op"] in ("reload_empty", "reload_race"):
             m.funcs[op["ctx"]] = {}
             m.bound[op["ctx"]] = set()
+        elif op["op"] == "script_call":
+            reg = m.registered().get(op["name"])
+            if reg:
+                _, c, fn, g, sr = sorted(reg)[-1]
+                data = dict(op["kw"])
+                data["trigger_type"] = "service"
+                if not (op["ctl"].get("return_response") and not sr):  # asking a service without responses for one is an error
+                    if step["exc"] is not None or step["runs"] != [[c, fn, g, data]]:
+                        return {"i": step["i"], "what": "script-call-run", "exp": [[c, fn, g, data]], "obs": [step["exc"], step["runs"]]}
+                    exp_res = {"gen": g, "keys": sorted(data)} if (op["ctl"].get("return_response") or sr == "only") else None
+                    if step["result"] != exp_res:
+                        return {"i": step["i"], "what": "script-call-response", "exp": exp_res, "obs": step["result"]}
+            elif step.get("runs"):
+                return {"i": step["i"], "what": "script-call-run", "exp": [], "obs": step["runs"]}
         elif op["op"] == "outgoing":
             if step["exc"] is not None or step["delivered"] != [op["kw"]]:
                 return {"i": step["i"], "what": "outgoing", "exp": [op["kw"]], "obs": [step["exc"], step["delivered"]]}
@@ -313,7 +350,8 @@ class C12(ModelCheck):
         "evaluating code in the context the way a Jupyter cell does, delete it, rebind it to a constant, reload the file with a two-alias service and empty it again while that declaration is still being started (constructed race), reload the "
         "context's (empty) file, call a service with generated data (with return_response where supported), and "
         "outgoing calls from script code to a recording service through service.call and DOMAIN.SERVICE(**kw) with "
-        "blocking / return_response controls; finally unload. Oracle: a model of declarations and owners - after every "
+        "blocking / return_response controls, and calls from script code to the services pyscript itself declares (a "
+        "response-only service returns its result also without return_response); finally unload. Oracle: a model of declarations and owners - after every "
         "step the registered names equal the declared (non-rejected) ones, a call runs the latest live definition with "
         "data + trigger_type='service' and returns its result, a name owned by another context is not taken over, the "
         "recording service receives exactly the given parameters, nothing is left after unload. Non-trivial = a "
